@@ -325,7 +325,11 @@ def preprocess(outputs: DictOfNamedArrays, target: Target) -> PreprocessResult:
             for name, output in outputs.items()})
 
     # represent deps in terms of output names
-    output_expr_to_name = {output.expr: name for name, output in outputs.items()}
+    # (sorted: if one array is returned under several names, which of them
+    # stands for it must not depend on the order the outputs were supplied in)
+    output_expr_to_name = {output.expr: name
+                           for name, output in sorted(outputs.items(),
+                                                      key=lambda kv: kv[0])}
     dag = {name: (frozenset([output_expr_to_name[output] for output in val])
                   - frozenset([name]))
            for name, val in deps.items()}
